@@ -1,7 +1,7 @@
 (* CenterPrep.v — origin preprocessing of set_center (center.py:243-267):
    integral origins, negative origins, rounding for order = 0; and the link
    between set_center and its whole-pixel core set_center_int. *)
-From Coq Require Import List Arith Lia Bool ZArith QArith Qround Qabs ZifyBool ZifyNat.
+From Coq Require Import List Arith Lia Bool ZArith QArith Qround Qabs Lqa ZifyBool ZifyNat.
 From PA Require Import base.Arr base.Px model.Center.
 Import ListNotations.
 
@@ -58,6 +58,21 @@ Proof. unfold whole_origin. rewrite prep_axis_int. reflexivity. Qed.
 Lemma whole_origin_order0 n q :
   whole_origin n 0 q = qround_even (if Qle_bool 0 q then q else q + inject_Z (Z.of_nat n))%Q.
 Proof. reflexivity. Qed.
+
+(* Python round: the result is a nearest integer (ties go to the even one by
+   definition of qround_even) *)
+Lemma qround_even_near q : (Qabs (q - inject_Z (qround_even q)) <= 1 # 2)%Q.
+Proof.
+  unfold qround_even.
+  pose proof (Qfloor_le q) as H1. pose proof (Qlt_floor q) as H2.
+  rewrite inject_Z_plus in H2. change (inject_Z 1) with 1%Q in H2.
+  set (f := Qfloor q) in *.
+  apply Qabs_Qle_condition.
+  destruct (Qcompare (q - inject_Z f)%Q (1 # 2)%Q) eqn:E.
+  - apply Qeq_alt in E. destruct (Z.even f); [|rewrite inject_Z_plus; change (inject_Z 1) with 1%Q]; split; lra.
+  - apply Qlt_alt in E. split; lra.
+  - apply Qgt_alt in E. rewrite inject_Z_plus. change (inject_Z 1) with 1%Q. split; lra.
+Qed.
 
 Lemma negative_origin_prep n order k : (- Z.of_nat n <= k < 0)%Z ->
   prep_axis n order (inject_Z k) = prep_axis n order (inject_Z (k + Z.of_nat n)) /\
